@@ -3,6 +3,7 @@
 package modules
 
 import (
+	"context"
 	"errors"
 	"fmt"
 	"strings"
@@ -18,6 +19,7 @@ type C01Params struct {
 	Mgmt   bool     // module management enabled
 	Rounds []int    // bit masks of enabled modules: Rounds[0] before Start, each further one followed by ManageModules
 	Pts    int      // interior points of start/stop callbacks
+	Work   bool     // every start routine launches a worker that returns on cancellation
 }
 
 func (p C01Params) Name() string {
@@ -25,7 +27,7 @@ func (p C01Params) Name() string {
 	for _, d := range p.Deps {
 		ds = append(ds, fmt.Sprintf("%d>%d", d[0], d[1]))
 	}
-	return fmt.Sprintf("c01/n=%d/deps=%s/fault=%s/mgmt=%v/rounds=%v/pts=%d", p.N, strings.Join(ds, ","), p.Fault, p.Mgmt, p.Rounds, p.Pts)
+	return fmt.Sprintf("c01/n=%d/deps=%s/fault=%s/mgmt=%v/rounds=%v/pts=%d/work=%v", p.N, strings.Join(ds, ","), p.Fault, p.Mgmt, p.Rounds, p.Pts, p.Work)
 }
 
 type c01mod struct {
@@ -39,6 +41,7 @@ type c01mod struct {
 	startOKCount int
 	stopCount    int
 	stopRunning  bool
+	workRunning  int
 	stopEnded    bool // stop routine of the current cycle has ended
 	startBegunAt int  // sequence number of the last start-begin
 }
@@ -138,6 +141,15 @@ func VerifC01(p C01Params) *vsched.Scenario {
 				if err := s.fault(cm.idx, "start"); err != nil {
 					return err
 				}
+				if p.Work {
+					cm.workRunning++
+					cm.m.StartWorker("w", func(ctx context.Context) error {
+						<-ctx.Done()
+						vsched.Point("worker-winding-down")
+						cm.workRunning--
+						return nil
+					})
+				}
 				vsched.Ev("start-end:" + name)
 				cm.startedOK = true
 				cm.stopEnded = false
@@ -153,6 +165,9 @@ func VerifC01(p C01Params) *vsched.Scenario {
 				// (b) every started module that depends on this one has completely stopped
 				for _, r := range cm.rdeps {
 					rm := s.mods[r]
+					if rm.workRunning > 0 {
+						verifFail("stop-after-dependents-stopped", "dependent-work-running", "stop of %s began while a worker of dependent m%d is still running", name, r)
+					}
 					if rm.startedOK || rm.stopRunning || rm.startRunning {
 						verifFail("stop-after-dependents-stopped", "dependent-active", "stop of %s began while dependent m%d is still %s", name, r, c01phase(rm))
 					} else if rm.startOKCount > 0 && rm.m.status != StatusOffline {
